@@ -262,7 +262,7 @@ PROPS["C18"] = dict(
     rule="non-trivial = the pause point was reached and at least one pause/resume cycle was performed; distinct by SHA-1 of the case JSON",
     tests=[dict(name="TestVF_C18", rapid=False, env=dict(VERIF_CASE_LIMIT=300),
                 quick=dict(shards=32, timeout=1800, env=dict(VERIF_C18_STRIDE=30)),
-                thorough=dict(shards=32, timeout=20000, env=dict(VERIF_C18_STRIDE=2, VERIF_C18_LONG=1)))],
+                thorough=dict(shards=32, timeout=20000, env=dict(VERIF_C18_STRIDE=4, VERIF_C18_LONG=1)))],
 )
 
 PROPS["C12"] = dict(
